@@ -297,18 +297,22 @@ func (u *Unit) callByContractOrDefault(fc *frameCtx, name string, con *Contract,
 			}
 			fr := u.frameOf(con, env)
 			u.checkCalleeFrame(fc, pc, fr, name, pos)
+			allocBefore := st.alloc
 			u.havoc(st, pc, fr)
 			if con.Logs || con.ModAny {
 				if fc != nil && !fc.spec {
 					u.checkLogAllowed(fc, pc, name, pos)
 				}
+				lenBefore := u.logLen(st)
 				u.logHavoc(st, pc)
+				u.sentAllocatedDuring(st, pc, lenBefore, allocBefore)
 			}
 		}
 		res = u.freshResults(shortName(name), sig, st, pc)
 	}
 	// postconditions
 	post := u.contractEnv(con, sig, invoke, args, st, pc, name)
+	post.calleePost = true
 	oldEnv := *env
 	oldEnv.st = pre
 	post.old = &oldEnv
